@@ -56,3 +56,43 @@ func (o *Once) Do(f func()) {
 	}()
 	f()
 }
+
+// Cond mirrors sync.Cond: waiters park on a channel of their own, in arrival order, after
+// releasing L; Signal releases the oldest waiter, Broadcast all of them.
+type Cond struct {
+	L Locker
+
+	m       Mutex
+	waiters []chan struct{}
+}
+
+func NewCond(l Locker) *Cond { return &Cond{L: l} }
+
+func (c *Cond) Wait() {
+	ch := make(chan struct{})
+	c.m.Lock()
+	c.waiters = append(c.waiters, ch)
+	c.m.Unlock()
+	c.L.Unlock()
+	simrt.Recv("cond.Wait", ch)
+	c.L.Lock()
+}
+
+func (c *Cond) Signal() {
+	c.m.Lock()
+	if len(c.waiters) > 0 {
+		ch := c.waiters[0]
+		c.waiters = c.waiters[1:]
+		simrt.Close("cond.Signal", ch)
+	}
+	c.m.Unlock()
+}
+
+func (c *Cond) Broadcast() {
+	c.m.Lock()
+	for _, ch := range c.waiters {
+		simrt.Close("cond.Broadcast", ch)
+	}
+	c.waiters = nil
+	c.m.Unlock()
+}
